@@ -405,12 +405,16 @@ impl EventGen for OtherElement {
         if self.0.name == "text" {
             // The extent includes the text's anchor as written: `text-loc` / relative
             // positioning move it by the text offset after `e` was positioned.
-            let anchor = output.iter().find_map(|ev| match ev {
-                OutputEvent::Start(t) if t.name == "text" => t.bbox().ok().flatten(),
+            let written = output.iter().find_map(|ev| match ev {
+                OutputEvent::Start(t) if t.name == "text" => Some(t),
                 _ => None,
             });
-            if anchor.is_some() {
-                bb = anchor;
+            if let Some(anchor) = written.and_then(|t| t.bbox().ok().flatten()) {
+                bb = Some(anchor);
+                // ... and that is where a reference to the text finds it
+                if let Some(t) = written.filter(|t| t.has_attr("id")) {
+                    context.update_element(t);
+                }
             }
         }
         if self.0.name == "point" {
